@@ -139,10 +139,11 @@ func succOf(l, j ssa.Value) bool {
 }
 
 type wWalk struct {
-	f                 *ssa.Function
-	key, node, value  ssa.Value
-	iKey, iNode, iVal int
-	calls             []*ssa.Call // self-recursive calls
+	f                 *ssa.Function // the function analysed: the walk itself or a helper that stands for one of its arms
+	root              *ssa.Function // the walk function (recursive calls target it)
+	key, node, value  ssa.Value     // roles in f (nil when f has no such parameter)
+	iKey, iNode, iVal int           // argument positions in calls of root
+	calls             []*ssa.Call   // calls of root made in f
 }
 
 func lastBytesParam(f *ssa.Function) ssa.Value {
@@ -159,31 +160,128 @@ func lastBytesParam(f *ssa.Function) ssa.Value {
 }
 
 func newWalk(r *engine.Run, rule, name string) *wWalk {
-	f := wfn(r, rule, name)
-	if f == nil {
+	ws := walks(r, rule, name)
+	if len(ws) == 0 {
 		return nil
 	}
-	w := &wWalk{f: f, key: lastBytesParam(f), node: paramRole(f, "node"), value: paramRole(f, "value"), iKey: -1, iNode: -1, iVal: -1}
-	for i, p := range f.Params {
+	return ws[0]
+}
+
+// walks: the walk function and the helpers that stand for one of its arms. A
+// helper is a repository function of the same package that the walk calls with
+// its position node (or a type-asserted view of it) or its payload and whose
+// results it returns as its own (same result types): extracting an arm into a
+// method must not hide the arm from the rules. The first element is the walk.
+func walks(r *engine.Run, rule, name string) []*wWalk {
+	root := wfn(r, rule, name)
+	if root == nil {
+		return nil
+	}
+	rk, rn, rv := lastBytesParam(root), paramRole(root, "node"), paramRole(root, "value")
+	iKey, iNode, iVal := -1, -1, -1
+	for i, p := range root.Params {
 		switch ssa.Value(p) {
-		case w.key:
-			w.iKey = i
-		case w.node:
-			w.iNode = i
-		case w.value:
-			w.iVal = i
+		case rk:
+			iKey = i
+		case rn:
+			iNode = i
+		case rv:
+			iVal = i
 		}
 	}
-	if w.key == nil || w.node == nil || w.iKey < 0 || w.iNode < 0 {
-		r.Anchor(rule, fmt.Errorf("unresolved anchor: key/node parameters of %s", fn(f)))
+	if rk == nil || rn == nil || iKey < 0 || iNode < 0 {
+		r.Anchor(rule, fmt.Errorf("unresolved anchor: key/node parameters of %s", fn(root)))
 		return nil
 	}
-	engine.Instrs(f, func(in ssa.Instruction) {
-		if c, ok := in.(*ssa.Call); ok && c.Call.StaticCallee() == f {
-			w.calls = append(w.calls, c)
+	mk := func(f *ssa.Function) *wWalk {
+		w := &wWalk{f: f, root: root, iKey: iKey, iNode: iNode, iVal: iVal}
+		if f == root {
+			w.key, w.node, w.value = rk, rn, rv
+		} else {
+			w.key, w.node, w.value = lastBytesParam(f), paramRole(f, "node"), paramRole(f, "value")
+			if w.value == nil && w.node != nil {
+				// a helper with two Node parameters: position first, payload last; with one: the position
+				var nodes []ssa.Value
+				for i, p := range f.Params {
+					if i == 0 && f.Signature.Recv() != nil {
+						continue
+					}
+					if isNodeIfaceW(p.Type()) {
+						nodes = append(nodes, p)
+					}
+				}
+				if len(nodes) >= 2 {
+					w.value = nodes[len(nodes)-1]
+				}
+			}
 		}
+		engine.Instrs(f, func(in ssa.Instruction) {
+			if c, ok := in.(*ssa.Call); ok && c.Call.StaticCallee() == root {
+				w.calls = append(w.calls, c)
+			}
+		})
+		return w
+	}
+	out := []*wWalk{mk(root)}
+	seen := map[*ssa.Function]bool{root: true}
+	derived := func(v ssa.Value) bool {
+		v = stripConv(v)
+		if v == rn || (rv != nil && v == rv) {
+			return true
+		}
+		if src := typeAssertSource(v); src != nil && src == rn {
+			return true
+		}
+		if mi, ok := v.(*ssa.MakeInterface); ok {
+			if src := typeAssertSource(mi.X); src != nil && src == rn {
+				return true
+			}
+		}
+		return false
+	}
+	sameResults := func(g *ssa.Function) bool {
+		a, b := root.Signature.Results(), g.Signature.Results()
+		if a.Len() != b.Len() {
+			return false
+		}
+		for i := 0; i < a.Len(); i++ {
+			if !types.Identical(a.At(i).Type(), b.At(i).Type()) {
+				return false
+			}
+		}
+		return true
+	}
+	engine.Instrs(root, func(in ssa.Instruction) {
+		c, ok := in.(*ssa.Call)
+		if !ok {
+			return
+		}
+		g := c.Call.StaticCallee()
+		if g == nil || seen[g] || len(g.Blocks) == 0 || g.Pkg != root.Pkg || !sameResults(g) {
+			return
+		}
+		takes := false
+		for _, a := range c.Call.Args {
+			if derived(a) {
+				takes = true
+			}
+		}
+		if !takes {
+			return
+		}
+		seen[g] = true
+		r.Touch(g)
+		out = append(out, mk(g))
 	})
-	return w
+	return out
+}
+
+func allWalks(r *engine.Run, rule string, names ...string) []*wWalk {
+	var out []*wWalk
+	for _, n := range names {
+		out = append(out, walks(r, rule, n)...)
+	}
+	return out
 }
 
 func extractOf(c *ssa.Call, i int) *ssa.Extract {
@@ -281,11 +379,9 @@ func (w *wWalk) wholeKeyMatched(b *ssa.BasicBlock, n ssa.Value, ps []ssa.Value) 
 
 func agreeSlot(r *engine.Run, rule string) {
 	n := 0
-	for _, name := range []string{"insert", "delete"} {
-		w := newWalk(r, rule, name)
-		if w == nil {
-			continue
-		}
+	for _, w := range allWalks(r, rule, "insert", "delete") {
+		name := w.root.Name()
+		_ = name
 		o := ord{}
 		for _, c := range w.calls {
 			karg := c.Call.Args[w.iKey]
@@ -356,11 +452,9 @@ func agreeSlot(r *engine.Run, rule string) {
 
 func domShortMatch(r *engine.Run, rule string) {
 	n := 0
-	for _, name := range []string{"insert", "delete"} {
-		w := newWalk(r, rule, name)
-		if w == nil {
-			continue
-		}
+	for _, w := range allWalks(r, rule, "insert", "delete") {
+		name := w.root.Name()
+		_ = name
 		o := ord{}
 		for _, c := range w.calls {
 			base, fld, ok := loadOfField(c.Call.Args[w.iNode])
@@ -420,11 +514,8 @@ func weightSource(v ssa.Value) ssa.Value {
 }
 
 func domDeleteMatch(r *engine.Run, rule string) {
-	w := newWalk(r, rule, "delete")
-	if w == nil {
-		return
-	}
 	n := 0
+	for _, w := range walks(r, rule, "delete") {
 	o := ord{}
 	for _, ret := range engine.Returns(w.f) {
 		if len(ret.Results) != 3 || !nilConst(ret.Results[1]) || !nilConst(ret.Results[2]) {
@@ -454,6 +545,7 @@ func domDeleteMatch(r *engine.Run, rule string) {
 			r.Fail(rule, cons, pos, "delete reports a removal (nil node, nil error) whose weight is not the weight of the value node or shared-prefix node at the position")
 		}
 	}
+	}
 	if n < 2 {
 		r.Anchor(rule, fmt.Errorf("unresolved anchor: only %d removal returns found in delete", n))
 	}
@@ -462,15 +554,16 @@ func domDeleteMatch(r *engine.Run, rule string) {
 // ---- AGREE-splitpair -------------------------------------------------------------
 
 func agreeSplitPair(r *engine.Run, rule string) {
-	w := newWalk(r, rule, "insert")
-	if w == nil || w.value == nil || w.iVal < 0 {
-		if w != nil {
-			r.Anchor(rule, fmt.Errorf("unresolved anchor: payload parameter of %s", fn(w.f)))
+	ws := walks(r, rule, "insert")
+	if len(ws) == 0 || ws[0].value == nil || ws[0].iVal < 0 {
+		if len(ws) > 0 {
+			r.Anchor(rule, fmt.Errorf("unresolved anchor: payload parameter of %s", fn(ws[0].f)))
 		}
 		return
 	}
-	o := ord{}
 	old, neu := 0, 0
+	for _, w := range ws {
+	o := ord{}
 	for _, c := range w.calls {
 		if !nilConst(c.Call.Args[w.iNode]) {
 			continue
@@ -498,6 +591,7 @@ func agreeSplitPair(r *engine.Run, rule string) {
 			continue
 		}
 		r.Fail(rule, cons, pos, "a child of the new branch is built for a key that is neither the walked key nor the existing node's key")
+	}
 	}
 	if old < 1 || neu < 1 {
 		r.Anchor(rule, fmt.Errorf("unresolved anchor: split of a shared-prefix node in insert (children for the old key: %d, for the new key: %d)", old, neu))
@@ -767,10 +861,16 @@ func typeAssertSource(v ssa.Value) ssa.Value {
 }
 
 func agreeMergeKey(r *engine.Run, rule string) {
-	w := newWalk(r, rule, "delete")
-	if w == nil {
-		return
+	n := 0
+	for _, w := range walks(r, rule, "delete") {
+		agreeMergeKeyIn(r, rule, w, &n)
 	}
+	if n < 3 {
+		r.Anchor(rule, fmt.Errorf("unresolved anchor: only %d key rewrites of shared-prefix nodes found in delete", n))
+	}
+}
+
+func agreeMergeKeyIn(r *engine.Run, rule string, w *wWalk, np *int) {
 	type fs struct {
 		key, val *ssa.Store
 	}
@@ -808,7 +908,6 @@ func agreeMergeKey(r *engine.Run, rule string) {
 			g.val = st
 		}
 	})
-	n := 0
 	o := ord{}
 	for _, k := range order {
 		g := groups[k]
@@ -817,7 +916,7 @@ func agreeMergeKey(r *engine.Run, rule string) {
 		if g.val != nil && g.key == nil {
 			if sb, sf, ok := loadOfField(g.val.Val); ok && isNamedPtr(sb.Type(), "shortNode") && sb != k.x {
 				_ = sf
-				n++
+				*np++
 				r.Fail(rule, o.next(fn(w.f)+"|fused shared-prefix node"), r.P.Pos(g.val.Pos()), "a shared-prefix node takes over the value of the shared-prefix node below it without extending its key by that node's key: every key below loses the nibbles of the absorbed node")
 			}
 			continue
@@ -825,7 +924,7 @@ func agreeMergeKey(r *engine.Run, rule string) {
 		if g.key == nil {
 			continue
 		}
-		n++
+		*np++
 		cons := o.next(fn(w.f) + "|fused shared-prefix node")
 		pos := r.P.Pos(g.key.Pos())
 		segs, why := segsOf(g.key.Val, 0)
@@ -846,7 +945,7 @@ func agreeMergeKey(r *engine.Run, rule string) {
 			var prefixSeg *kseg
 			if ex, ok := origin.(*ssa.Extract); ok {
 				if c, ok := ex.Tuple.(*ssa.Call); ok {
-					if c.Call.StaticCallee() == w.f && ex.Index == 1 && !fresh {
+					if c.Call.StaticCallee() == w.root && ex.Index == 1 && !fresh {
 						if nb, _, ok := loadOfField(c.Call.Args[w.iNode]); ok && nb == k.x {
 							prefixSeg = &kseg{whole: nil}
 							what = "own key, then the key of the shared-prefix node that came back from below"
@@ -895,27 +994,22 @@ func agreeMergeKey(r *engine.Run, rule string) {
 		r.Check(match, rule, cons, pos, "new key = "+what,
 			"the key of the fused shared-prefix node is "+fmtSegs(segs)+", expected "+what+": every key below the fused node is now reached by other nibbles than its own, so lookups and proofs of those keys fail and the root differs from the trie built without the detour")
 	}
-	if n < 3 {
-		r.Anchor(rule, fmt.Errorf("unresolved anchor: only %d key rewrites of shared-prefix nodes found in delete", n))
-	}
 }
 
 // ---- AGREE-weightop ---------------------------------------------------------------
 
 func agreeWeightOp(r *engine.Run, rule string) {
 	n := 0
-	for _, name := range []string{"insert", "delete"} {
-		w := newWalk(r, rule, name)
-		if w == nil {
-			continue
-		}
+	for _, w := range allWalks(r, rule, "insert", "delete") {
+		name := w.root.Name()
+		_ = name
 		isChange := func(v ssa.Value) bool {
 			ex, ok := stripConv(v).(*ssa.Extract)
 			if !ok || ex.Index != 0 {
 				return false
 			}
 			c, ok := ex.Tuple.(*ssa.Call)
-			return ok && c.Call.StaticCallee() == w.f
+			return ok && c.Call.StaticCallee() == w.root
 		}
 		o := ord{}
 		engine.Instrs(w.f, func(in ssa.Instruction) {
@@ -1011,98 +1105,156 @@ func agreeWeightOp(r *engine.Run, rule string) {
 
 // ---- DOM-reduce ------------------------------------------------------------------
 
-func domReduce(r *engine.Run, rule string) {
-	w := newWalk(r, rule, "delete")
-	if w == nil {
-		return
+func isNodeArray(v ssa.Value) bool {
+	t := v.Type().Underlying()
+	if p, ok := t.(*types.Pointer); ok {
+		t = p.Elem().Underlying()
 	}
+	a, ok := t.(*types.Array)
+	return ok && isNodeIfaceW(a.Elem())
+}
+
+// scanHelperCall: v is the result of a repository function that is handed the
+// child array of branch base and returns an int (the remaining-children scan
+// extracted into a helper).
+func scanHelperCall(v ssa.Value, base ssa.Value) *ssa.Function {
+	c, ok := v.(*ssa.Call)
+	if !ok {
+		return nil
+	}
+	g := c.Call.StaticCallee()
+	if g == nil || !inRepo(g) || len(g.Blocks) == 0 {
+		return nil
+	}
+	if b, ok := c.Type().Underlying().(*types.Basic); !ok || b.Kind() != types.Int {
+		return nil
+	}
+	for _, a := range c.Call.Args {
+		x := a
+		if ld, ok := x.(*ssa.UnOp); ok && ld.Op == token.MUL {
+			x = ld.X
+		}
+		if bb, ok := childrenOf(x); ok && bb == base {
+			return g
+		}
+		if a == base {
+			return g
+		}
+	}
+	return nil
+}
+
+func domReduce(r *engine.Run, rule string) {
 	n := 0
-	o := ord{}
-	// the branch itself is returned after a descent only where the rebuilt child
-	// tested non-nil or the result of the remaining-children scan was tested
-	for _, c := range w.calls {
-		arr, _, ok := loadOfIndex(c.Call.Args[w.iNode])
-		if !ok {
-			continue
+	scanFns := map[*ssa.Function]bool{}
+	var scanOrder []*ssa.Function
+	for _, w := range walks(r, rule, "delete") {
+		if !scanFns[w.f] {
+			scanFns[w.f] = true
+			scanOrder = append(scanOrder, w.f)
 		}
-		base, ok := childrenOf(arr)
-		if !ok {
-			continue
-		}
-		child := extractOf(c, 1)
-		if child == nil {
-			continue
-		}
-		for _, ret := range engine.Returns(w.f) {
-			if len(ret.Results) != 3 || !nilConst(ret.Results[2]) {
+		o := ord{}
+		// the branch itself is returned after a descent only where the rebuilt child
+		// tested non-nil or the result of the remaining-children scan was tested
+		for _, c := range w.calls {
+			arr, _, ok := loadOfIndex(c.Call.Args[w.iNode])
+			if !ok {
 				continue
 			}
-			mi, ok := ret.Results[1].(*ssa.MakeInterface)
-			if !ok || mi.X != base || !engine.ReachableAfter(c, ret) {
+			base, ok := childrenOf(arr)
+			if !ok {
 				continue
 			}
-			n++
-			good := false
-			if facts, ok := engine.FactsOn(w.f, ret.Block()); ok {
-				for _, ft := range facts {
-					if ft.Kind == "eq" && !ft.Truth && (ft.A == ssa.Value(child) && nilConst(ft.B) || ft.B == ssa.Value(child) && nilConst(ft.A)) {
-						good = true
-					}
-					for _, v := range []ssa.Value{ft.A, ft.B} {
-						if ph, ok := v.(*ssa.Phi); ok && scanPhi(ph) {
+			child := extractOf(c, 1)
+			if child == nil {
+				continue
+			}
+			for _, ret := range engine.Returns(w.f) {
+				if len(ret.Results) != 3 || !nilConst(ret.Results[2]) {
+					continue
+				}
+				mi, ok := ret.Results[1].(*ssa.MakeInterface)
+				if !ok || mi.X != base || !engine.ReachableAfter(c, ret) {
+					continue
+				}
+				n++
+				good := false
+				if facts, ok := engine.FactsOn(w.f, ret.Block()); ok {
+					for _, ft := range facts {
+						if ft.Kind == "eq" && !ft.Truth && (ft.A == ssa.Value(child) && nilConst(ft.B) || ft.B == ssa.Value(child) && nilConst(ft.A)) {
 							good = true
 						}
-					}
-				}
-			}
-			r.Check(good, rule, o.next(fn(w.f)+"|branch kept"), r.P.Pos(ret.Pos()), "the branch is kept only where the rebuilt child is non-nil or the number of remaining children was examined",
-				"delete returns the branch after a child below it was removed without having looked at how many children remain: a branch with a single child survives, so the trie's shape (and root hash) depends on the history of updates, and a later lookup/proof walks a shape insert never builds")
-		}
-	}
-	// the scan records slot i only for a child that tested non-nil, and only while nothing was recorded
-	engine.Instrs(w.f, func(in ssa.Instruction) {
-		ph, ok := in.(*ssa.Phi)
-		if !ok || !scanPhi(ph) || loopHeadOf(ph.Block()) != ph.Block() {
-			return
-		}
-		var none ssa.Value
-		for i, e := range ph.Edges {
-			if _, isC := intConst(e); isC && !ph.Block().Dominates(ph.Block().Preds[i]) {
-				none = e
-			}
-		}
-		for i, e := range ph.Edges {
-			if _, isC := intConst(e); isC || e == ssa.Value(ph) {
-				continue
-			}
-			pred := ph.Block().Preds[i]
-			n++
-			nonNil, first := false, false
-			if facts, ok := engine.FactsOn(w.f, pred); ok {
-				for _, ft := range facts {
-					if ft.Kind != "eq" {
-						continue
-					}
-					for _, pr := range [][2]ssa.Value{{ft.A, ft.B}, {ft.B, ft.A}} {
-						if arr, idx, ok := loadOfIndex(pr[0]); ok && nilConst(pr[1]) && !ft.Truth {
-							if _, ok := childrenOf(arr); ok && idx == e {
-								nonNil = true
+						for _, v := range []ssa.Value{ft.A, ft.B} {
+							if v == nil {
+								continue
 							}
-						}
-						if pr[0] == ssa.Value(ph) && none != nil && ft.Truth {
-							if a, ok := intConst(pr[1]); ok {
-								if b, _ := intConst(none); a == b {
-									first = true
+							if ph, ok := v.(*ssa.Phi); ok && scanPhi(ph) {
+								good = true
+							}
+							if g := scanHelperCall(v, base); g != nil {
+								good = true
+								if !scanFns[g] {
+									scanFns[g] = true
+									scanOrder = append(scanOrder, g)
+									r.Touch(g)
 								}
 							}
 						}
 					}
 				}
+				r.Check(good, rule, o.next(fn(w.f)+"|branch kept"), r.P.Pos(ret.Pos()), "the branch is kept only where the rebuilt child is non-nil or the number of remaining children was examined",
+					"delete returns the branch after a child below it was removed without having looked at how many children remain: a branch with a single child survives, so the trie's shape (and root hash) depends on the history of updates, and a later lookup/proof walks a shape insert never builds")
 			}
-			r.Check(nonNil && first, rule, o.next(fn(w.f)+"|remaining-children scan"), r.P.Pos(ph.Pos()), "slot i is recorded only where Children[i] tested non-nil and nothing was recorded before",
-				fmt.Sprintf("the scan for the only remaining child records a slot number on a path where that slot was not established to be occupied (%v) or where a slot was already recorded (%v): the branch is reduced onto an empty slot, or never reduced", nonNil, first))
 		}
-	})
+	}
+	// the scan records slot i only for a child that tested non-nil, and only while nothing was recorded
+	for _, sf := range scanOrder {
+		f := sf
+		o := ord{}
+		engine.Instrs(f, func(in ssa.Instruction) {
+			ph, ok := in.(*ssa.Phi)
+			if !ok || !scanPhi(ph) || loopHeadOf(ph.Block()) != ph.Block() {
+				return
+			}
+			var none ssa.Value
+			for i, e := range ph.Edges {
+				if _, isC := intConst(e); isC && !ph.Block().Dominates(ph.Block().Preds[i]) {
+					none = e
+				}
+			}
+			for i, e := range ph.Edges {
+				if _, isC := intConst(e); isC || e == ssa.Value(ph) {
+					continue
+				}
+				pred := ph.Block().Preds[i]
+				n++
+				nonNil, first := false, false
+				if facts, ok := engine.FactsOn(f, pred); ok {
+					for _, ft := range facts {
+						if ft.Kind != "eq" {
+							continue
+						}
+						for _, pr := range [][2]ssa.Value{{ft.A, ft.B}, {ft.B, ft.A}} {
+							if arr, idx, ok := loadOfIndex(pr[0]); ok && nilConst(pr[1]) && !ft.Truth {
+								if isNodeArray(arr) && idx == e {
+									nonNil = true
+								}
+							}
+							if pr[0] == ssa.Value(ph) && none != nil && ft.Truth {
+								if a, ok := intConst(pr[1]); ok {
+									if b, _ := intConst(none); a == b {
+										first = true
+									}
+								}
+							}
+						}
+					}
+				}
+				r.Check(nonNil && first, rule, o.next(fn(f)+"|remaining-children scan"), r.P.Pos(ph.Pos()), "slot i is recorded only where Children[i] tested non-nil and nothing was recorded before",
+					fmt.Sprintf("the scan for the only remaining child records a slot number on a path where that slot was not established to be occupied (%v) or where a slot was already recorded (%v): the branch is reduced onto an empty slot, or never reduced", nonNil, first))
+			}
+		})
+	}
 	if n < 2 {
 		r.Anchor(rule, fmt.Errorf("unresolved anchor: only %d reduction sites found in delete", n))
 	}
